@@ -21,50 +21,6 @@ import MultiModel.Gen.BlasDispatch
 namespace Driver.Blas
 open Multi.Blas
 
-/-! ### Gaussian integers -/
-structure GInt where
-  re : Int
-  im : Int
-deriving DecidableEq, Repr, Inhabited
-
-namespace GInt
-instance : Add GInt := ⟨fun a b => ⟨a.re + b.re, a.im + b.im⟩⟩
-instance : Mul GInt := ⟨fun a b => ⟨a.re * b.re - a.im * b.im, a.re * b.im + a.im * b.re⟩⟩
-instance : Neg GInt := ⟨fun a => ⟨-a.re, -a.im⟩⟩
-instance : Zero GInt := ⟨⟨0, 0⟩⟩
-instance : One GInt := ⟨⟨1, 0⟩⟩
-def conj (a : GInt) : GInt := ⟨a.re, -a.im⟩
-
-theorem ext' {a b : GInt} (h1 : a.re = b.re) (h2 : a.im = b.im) : a = b := by
-  cases a; cases b; simp_all
-
-instance : CRing GInt where
-  conj := conj
-  re := fun a => ⟨a.re, 0⟩
-  inv := conj
-  mul_comm := by
-    intro a b; apply ext'
-    · show a.re * b.re - a.im * b.im = b.re * a.re - b.im * a.im; grind
-    · show a.re * b.im + a.im * b.re = b.re * a.im + b.im * a.re; grind
-  conj_conj := by intro a; apply ext' <;> simp [conj]
-  conj_add := by
-    intro a b; apply ext'
-    · show a.re + b.re = a.re + b.re; rfl
-    · show -(a.im + b.im) = -a.im + -b.im; omega
-  conj_mul := by
-    intro a b; apply ext'
-    · show a.re * b.re - a.im * b.im = a.re * b.re - (-a.im) * (-b.im); grind
-    · show -(a.re * b.im + a.im * b.re) = a.re * (-b.im) + (-a.im) * b.re; grind
-  conj_zero := by
-    apply ext'
-    · show (0 : Int) = 0; rfl
-    · show -(0 : Int) = 0; rfl
-  re_self := by
-    intro a h
-    have h2 : -a.im = a.im := congrArg GInt.im h
-    apply ext' <;> simp <;> omega
-end GInt
-
 /-! ### the arena -/
 def REG : Int := 128
 def NREG : Int := 4
@@ -216,9 +172,9 @@ def Run.blas (r : Run) (c : Case) (call : Call GInt) : Run :=
   else
     let r := { r with lines := r.lines.push (callLine c.ty call) }
     -- `lenient`: the differential run is against OpenBLAS, whose xGEMM accepts a leading dimension 0 for an operand without rows
-    match call.illegal c.cplx true with
+    match call.illegalL c.cplx true with
     | some p => { r with lines := r.lines.push s!"xerbla {routineUpper c.ty call} {p}" }
-    | none => { r with arena := Arena.ofMem r.arena.seed r.arena.cplx (call.exec c.cplx r.arena.mem true) }
+    | none => { r with arena := Arena.ofMem r.arena.seed r.arena.cplx (call.execL c.cplx true r.arena.mem) }
 
 def absI (x : Int) : Int := if x < 0 then -x else x
 
